@@ -84,6 +84,11 @@ def abort_store_transaction() -> None:
         return
     scope.depth -= 1
     if scope.depth > 0:
+        # The inner block's conn.rollback() rolled back everything appended so
+        # far on this connection: none of the queued events is durable any more,
+        # so an outer block that swallows the error and commits must not
+        # publish them.
+        scope.pending.clear()
         return
     _local.scope = None
     if scope.pending:
